@@ -81,12 +81,16 @@ def main():
                      ("a", "alpha"), ("b", "beta"), ("c", "gamma"), ("g", "gg"), ("x", "xx")):
         g2 = re.sub(rf"\b{old}\b", new, g2)
     g2 = g2.replace("pub fn lcm", "// a comment\n/* and /* a nested */ one */\npub   fn   lcm").replace("%=", " %=  ")
+    # cosmetic forms that must normalise to the same text: `loop { if c { break; } … }` for `while !c`, `let x: T = …` annotations
+    g2 = g2.replace("    while beta != T::ZERO {\n        alpha  %=   &beta;", "    loop {\n        if beta == T::ZERO {\n            break;\n        }\n        alpha %= &beta;")
+    g2 = g2.replace("let q9 = beta.abs();", "let q9: T = beta.abs();").replace("let (k1, k2) = egcd(", "let (k1, k2): (T, T) = egcd(")
+    assert "loop {" in g2 and "q9: T" in g2 and "(T, T) = egcd" in g2
     d1, _ = rs2lean.translate_source(g2, "lib.rs")
     if d0 != d1 or g2 == g:
         bad += 1
         print("FAIL renaming changes the generated text")
     else:
-        print("ok   renaming all variables + comments + spacing: identical text")
+        print("ok   renaming all variables + comments + spacing + loop/break for while + let annotations: identical text")
     # 3. rejections
     for s, frag in REJECT:
         try:
@@ -116,6 +120,9 @@ TY_REJECT = [  # (body of `f`, fragment expected in the error) for tools/rs2lean
     ("        unsafe { *self }\n", ":6: `unsafe`"),
     ("        let c = d == 0;\n        *self\n", ":6: boolean values"),
     ("        self.f(d)\n", ":6: recursion"),
+    ("        for i in 0..=d { }\n        *self\n", ":6: only `for i in a..b`"),
+    ("        loop { if d == 0 { return *self; } }\n", ":6: `loop` without"),
+    ("        let x: u32 = d;\n        *self\n", ":6: type mismatch"),
 ]
 
 
